@@ -139,13 +139,16 @@ def _hit(site):
     if S.record_sites:
         S.sites.append([site, S.curfile, count, S.cur_op])
     for index, fault in enumerate(S.plan):
-        if (
-            index not in S.fired
-            and fault["site"] == site
-            and fault.get("file") == S.curfile
-            and fault["ord"] == count
-            and fault.get("op", S.cur_op) == S.cur_op
-        ):
+        if fault["site"] != site or fault.get("file") != S.curfile or fault.get("op", S.cur_op) != S.cur_op:
+            continue
+        if fault.get("sticky"):
+            # a persistent condition (immutable file, full disk): every occurrence from
+            # the planned one on fails, so a retry does not get through either
+            if count >= fault["ord"]:
+                if index not in S.fired:
+                    S.fired.append(index)
+                return fault
+        elif index not in S.fired and fault["ord"] == count:
             S.fired.append(index)
             return fault
     return None
@@ -260,6 +263,9 @@ def _enact_fs(fault, op, pclass, shown):
             finally:
                 os.close(fd)
         _kill()
+    if act == "interrupt":
+        # Ctrl-C delivered at this instant
+        raise KeyboardInterrupt()
     if act.startswith("oserror:"):
         code = getattr(errno, act.split(":", 1)[1])
         raise OSError(code, os.strerror(code), _real_path(shown))
@@ -657,6 +663,8 @@ def _wrap_instance(plugin_id, instance):
                         raise _make_exc(fault)
                     if fault["act"] == "kill":
                         _kill()
+                    if fault["act"] == "interrupt":
+                        raise KeyboardInterrupt()
             return _o(*args, **kwargs)
 
         wrapper._pmsim = True
@@ -836,6 +844,12 @@ def _write_tree(request):
         full = os.path.join(S.work, rel)
         os.makedirs(os.path.dirname(full), exist_ok=True)
         os.link(os.path.join(S.work, source), full)
+    for rel, target in (request.get("symlinks") or {}).items():
+        # a symbolic link inside the tree; the target is given relative to the work
+        # directory (it may not exist: dangling link)
+        full = os.path.join(S.work, rel)
+        os.makedirs(os.path.dirname(full), exist_ok=True)
+        os.symlink(os.path.relpath(os.path.join(S.work, target), os.path.dirname(full)), full)
     for rel, spec in (request.get("tmpfiles") or {}).items():
         full = os.path.join(S.tmp, rel)
         with open(full, "wb") as handle:
@@ -850,7 +864,7 @@ def _child(request, root):
     S.cwd_at_event = os.getcwd
     os.makedirs(S.work)
     os.makedirs(S.tmp)
-    S.user_files = set((request.get("files") or {}).keys()) | set((request.get("links") or {}).keys())
+    S.user_files = set((request.get("files") or {}).keys()) | set((request.get("links") or {}).keys()) | set((request.get("symlinks") or {}).keys())
     S.user_dirs = set(request.get("dirs") or [])
     for rel in list(S.user_files):
         parts = rel.split("/")[:-1]
@@ -878,6 +892,30 @@ def _child(request, root):
     for index, op in enumerate(request["ops"]):
         S.cur_op = index
         S.log.append(["op", index])
+        if S.record_reads:
+            # what every user document holds when this operation starts (read through
+            # symbolic links), independent of whether and when the code opens it
+            S.busy = True
+            try:
+                snapshot = {}
+                for rel in sorted(S.user_files):
+                    try:
+                        fd = S.os_open(os.path.join(S.work, rel), os.O_RDONLY)
+                        try:
+                            chunks = []
+                            while True:
+                                part = os.read(fd, 1 << 16)
+                                if not part:
+                                    break
+                                chunks.append(part)
+                        finally:
+                            os.close(fd)
+                        snapshot[rel] = _b64(b"".join(chunks))
+                    except OSError:
+                        snapshot[rel] = None
+                S.log.append(["snap", snapshot])
+            finally:
+                S.busy = False
         S.op_results.append(_run_op(op))
     S.armed = False
     S.harness_notes.append("plugins=" + ",".join(S.plugins_seen))
@@ -909,6 +947,12 @@ def _snapshot(top):
             elif _stat.S_ISREG(info.st_mode):
                 with open(path, "rb") as handle:
                     files[sub] = [_b64(handle.read()), _stat.S_IMODE(info.st_mode)]
+            elif _stat.S_ISLNK(info.st_mode):
+                try:
+                    with open(path, "rb") as handle:
+                        files[sub] = [_b64(handle.read()), "symlink"]
+                except OSError:
+                    files[sub] = [None, "symlink"]
             else:
                 files[sub] = [None, info.st_mode]
     return files, sorted(dirs)
